@@ -269,7 +269,22 @@ def resolution_arg(case):
 
 
 def make_layers(dg, case):
-    return [dg.layer(l["key"], mode="vec") if l["kind"] == "vector" else dg.layer(l["key"]) for l in case["layers"]]
+    out = []
+    for l in case["layers"]:
+        kw = {"mode": "vec"} if l["kind"] == "vector" else {}
+        if l.get("op") is not None:
+            kw["operation"] = l["op"]      # the layer's own depth reduction (takes precedence over the call's)
+        out.append(dg.layer(l["key"], **kw))
+    return out
+
+
+def row_ops(case):
+    """the depth reduction of every binned row: the layer's own operation, else the call's (three rows per vector layer)"""
+    ops = []
+    for l in case["layers"]:
+        o = l.get("op") or case.get("op") or "sum"
+        ops.extend([o] if l["kind"] == "scalar" else [o, o, o])
+    return ops
 
 
 def origin_arg(osy, case):
@@ -379,6 +394,8 @@ def lean_line(case, obs, sel, order=None, spec=True):
             layers.append({"kind": "scalar", "vals": [None if v is None else fs(v) for v in lay["vals"]]})
         else:
             layers.append({"kind": "vector", "vals": [[fs(t) for t in w] for w in lay["vals"]]})
+        if lay.get("op") is not None:
+            layers[-1]["op"] = lay["op"]
     o = obs["origin"]
     return {"engine": "map", "ndim": case["ndim"], "den": case["den"], "centres": case["centres"], "sizes": case["sizes"],
             "layers": layers, "origin": [fs(t) for t in o], "u": [fs(t) for t in obs["u"]], "v": [fs(t) for t in obs["v"]],
@@ -485,7 +502,8 @@ def compare_model(case, obs, impl, ans, lane, skip_near=True):
         return f"{len(comps)} binned layers, model {len(ans['binned'])}", 0
     mags = mag_slots(ans)
     scales = layer_scales(case)
-    zfac = float(Fraction(ans["zsp"])) * ans["nz"] if ans.get("unitPower") else 1.0
+    upw = ans.get("unitPowers") or [ans.get("unitPower")] * len(ans["binned"])
+    zfacs = [float(Fraction(ans["zsp"])) * ans["nz"] if pw else 1.0 for pw in upw]
     near = ans.get("modelNear") or ans.get("spec", {}).get("near") or []
     skipped = 0
     for l, (got, want) in enumerate(zip(comps, ans["binned"])):
@@ -506,13 +524,14 @@ def compare_model(case, obs, impl, ans, lane, skip_near=True):
                 continue
             mf = Fraction(m)
             loose = (not exact) or (l in mags and not ans.get("magsExact"))
-            ok = eq_tol(a, mf, scales[l] * zfac) if loose else eq_exact(a, mf)
+            ok = eq_tol(a, mf, scales[l] * zfacs[l]) if loose else eq_exact(a, mf)
             if not ok:
                 return f"layer {l} pixel {pix} (j={pix // len(impl['x'])}, i={pix % len(impl['x'])}): impl {a!r}, model {float(mf)!r}", skipped
-    # units (7)
-    for li, lay in enumerate(impl["layers"]):
-        if lay["unit_power"] != ans["unitPower"]:
-            return f"layer {li}: unit {lay['unit']} = layer unit x length^{lay['unit_power']}, model length^{ans['unitPower']}", skipped
+    # units (7): per layer (a layer's rows share its operation)
+    for li, (lay, slot) in enumerate(zip(impl["layers"], ans["slots"])):
+        want = upw[slot[0]] if slot[0] < len(upw) else ans["unitPower"]
+        if lay["unit_power"] != want:
+            return f"layer {li}: unit {lay['unit']} = layer unit x length^{lay['unit_power']}, model length^{want}", skipped
     return None, skipped
 
 
@@ -534,8 +553,8 @@ def compare_spec(case, obs, impl, ans, lane):
     mags = mag_slots(ans)
     nz = spec["nz"]
     thick = case.get("dz") is not None
-    op = case.get("op") or "sum"
-    zfac = float(Fraction(spec["zsp"])) * nz if (thick and op in ("sum", "nansum")) else 1.0
+    rops = row_ops(case)
+    mixed = any(l.get("op") for l in case["layers"])
     out, skipped = [], 0
     cellvals = spec["cellvals"]
     for pix in range(npx):
@@ -546,6 +565,8 @@ def compare_spec(case, obs, impl, ans, lane):
             if pix >= len(got):
                 return [{"pix": None, "what": f"layer {l} has {len(got)} pixels, expected {npx}", "kind": "shape"}], skipped
             a = got[pix]
+            op = rops[l] if l < len(rops) else (case.get("op") or "sum")
+            zfac = float(Fraction(spec["zsp"])) * nz if (thick and op in ("sum", "nansum")) else 1.0
             loose = (not exact) or (l in mags and not ans.get("magsExact"))
             if nz == 1 and not (thick and op in ("sum", "nansum", "nanmean", "mean")):
                 acc = spec["accept"][pix]
@@ -578,6 +599,10 @@ def compare_spec(case, obs, impl, ans, lane):
                                     "what": f"the reduction of the sampled column is missing (NaN), impl shows {a}"})
                         break
                     continue
+                if a is None and mixed and (spec["lo"][-1][pix] is None or spec["hi"][-1][pix] is None):
+                    # layers with different reductions share one mask (NaN of the last binned row): the last row's column
+                    # is missing here, the masked array hides this row's value
+                    continue
                 if a is None or a == "nan":
                     out.append({"pix": pix, "layer": l, "kind": "masked_with_column", "cells": spec["accept"][pix],
                                 "what": f"impl {'masked' if a is None else 'NaN'}, the reduction of the sampled column is {float(Fraction(lo))}"})
@@ -593,8 +618,9 @@ def compare_spec(case, obs, impl, ans, lane):
                                 "what": f"impl {a!r}, reduction of the sampled column {float(lo)!r}" + ("" if lo == hi else f" .. {float(hi)!r}")})
                     break
     # unit of the result (7)
-    want_pw = 1 if (thick and op in ("sum", "nansum")) else 0
     for li, lay in enumerate(impl["layers"]):
+        lop = case["layers"][li].get("op") or case.get("op") or "sum"
+        want_pw = 1 if (thick and lop in ("sum", "nansum")) else 0
         if lay["unit_power"] != want_pw:
             out.append({"pix": None, "layer": li, "kind": "unit",
                         "what": f"layer unit {lay['unit']} is the layer unit x length^{lay['unit_power']}, expected length^{want_pw}"})
@@ -612,7 +638,9 @@ def model_as_impl(ans):
     layers, k = [], 0
     for first, is_scalar in ans["slots"]:
         w = 1 if is_scalar else 3
-        layers.append({"kind": "scalar" if is_scalar else "vector", "comps": comps[first:first + w], "unit_power": ans["unitPower"], "unit": "model"})
+        upw = ans.get("unitPowers") or []
+        layers.append({"kind": "scalar" if is_scalar else "vector", "comps": comps[first:first + w],
+                       "unit_power": upw[first] if first < len(upw) else ans["unitPower"], "unit": "model"})
         k += w
     return {"x": [float(Fraction(t)) for t in ans["x"]], "y": [float(Fraction(t)) for t in ans["y"]], "layers": layers}
 
@@ -673,7 +701,7 @@ def describe(case):
     dirs = d.get("s") or ("Vector" + str(tuple(d.get("v", []))))
     win = " ".join(f"{k}={case[k]['v']} {case[k]['unit']}" for k in ("dx", "dy", "dz") if case.get(k) is not None) or "dx omitted"
     return (f"{case['ndim']}-D mesh of {len(case['sizes'])} cells ({case['mesh_info']}), direction {dirs!r}, origin {case.get('origin')}, "
-            f"{win}, resolution {case['res']}, operation {case.get('op') or 'sum'}, layers {[l['key'] for l in case['layers']]}")
+            f"{win}, resolution {case['res']}, operation {case.get('op') or 'sum'}, layers {[l['key'] + ('(operation=' + l['op'] + ')' if l.get('op') else '') for l in case['layers']]}")
 
 
 def small_case(case, limit=60):
